@@ -7,7 +7,7 @@
    withdrawn) has been fixed in /repo; the model follows the source through gen/Gen_OracleSlash.v, the
    property is proved for the fixed variant (C13_unbond_once) and refuted for the pre-fix variant. *)
 From Coq Require Import ZArith List Bool.
-From FxV Require Import gen.Gen_OracleSlash model.M_OracleReg proofs.P_OracleReg proofs.P_OracleReg2 proofs.P_OracleRegStake proofs.P_OracleReg3 proofs.P_OracleRegCap.
+From FxV Require Import gen.Gen_OracleSlash model.M_OracleReg proofs.P_OracleReg proofs.P_OracleReg2 proofs.P_OracleRegStake proofs.P_OracleReg3 proofs.P_OracleRegCap proofs.P_OracleRegStaking.
 Import ListNotations.
 Open Scope Z_scope.
 
@@ -155,6 +155,47 @@ Theorem C13_validator_slash_life_cycle : unbond_needs_entry = false ->
   step s' (Unbond 0) = Err e_notfound.
 Proof. exact validator_slash_life_cycle_if_fixed. Qed.
 Print Assumptions C13_validator_slash_life_cycle.
+
+(* 3b. staking-side events (validator slashed for a current or a past infraction, jailed, unbonding, unbonded):
+       the real delegation moves, the crosschain records do not; the recorded stake changes in AddDelegate only;
+       the penalty is computed from the recorded stake, so when staking left less than that the withdrawal is
+       refused (finding C13-3) *)
+Theorem C13_staking_side_blind : forall s o s', staking_side o -> step s o = Ok s' ->
+  recs s' = recs s /\ by_bridger s' = by_bridger s /\ by_ext s' = by_ext s /\ proposal s' = proposal s /\
+  keys s' = keys s /\ bal_o s' = bal_o s /\ burned s' = burned s /\ total_power s' = total_power s /\ prm s' = prm s.
+Proof. exact staking_side_blind. Qed.
+Print Assumptions C13_staking_side_blind.
+
+Theorem C13_recorded_stake_moves_only_on_add_delegate : forall s o s' a r r', reg_inv s -> step s o = Ok s' ->
+  recs s a = Some r -> recs s' a = Some r' ->
+  o_amount r' = o_amount r \/ exists amt rw, o = AddDelegate a amt rw.
+Proof. exact recorded_stake_moves_only_on_add_delegate. Qed.
+Print Assumptions C13_recorded_stake_moves_only_on_add_delegate.
+
+Theorem C13_unbond_refused_when_penalty_exceeds_balance : forall s a r, recs s a = Some r ->
+  0 < slash_amount r (p_fraction (prm s)) -> bal_d s a < slash_amount r (p_fraction (prm s)) ->
+  forall s', step s (Unbond a) <> Ok s'.
+Proof. exact unbond_refused_when_penalty_exceeds_balance. Qed.
+Print Assumptions C13_unbond_refused_when_penalty_exceeds_balance.
+
+Theorem C13_penalty_exceeds_remaining_refuted : exists ops a r,
+  let s := run w_init1 ops in
+  recs s a = Some r /\ ~ In a (proposal s) /\ o_online r = false /\ o_slash r = 1 /\
+  (forall u, In u (ubds s) -> u_orc u <> a) /\ deleg s a (o_val r) = 0 /\
+  o_amount r = FX 10000 /\ slash_amount r (p_fraction (prm s)) = FX 10000 /\ bal_d s a = FX 9500 + 9 /\
+  step s (Unbond a) = Err e_invalid.
+Proof. exact penalty_exceeds_remaining_refuted. Qed.
+Print Assumptions C13_penalty_exceeds_remaining_refuted.
+
+Theorem C13_past_infraction_nonvacuous :
+  let s0 := run w_init (w_setup ++ confirm_all 1 (-1) ++ [ReDelegate 3 2 4; GovSet [1; 2; 3; 4; 5; 6] [(0, 7)]]) in
+  let s := run w_init w_K in
+  map u_amt (ubds s0) = [FX 10000] /\ map u_amt (ubds s) = [FX 9500] /\
+  deleg s0 3 2 = FX 10000 * dec_one /\ deleg s 3 2 = FX 9500 * dec_one /\
+  bal_d s 3 = bal_d s0 3 + 2 /\ recs s 3 = recs s0 3 /\ recs s 0 = recs s0 0 /\
+  (o_amount (mkOracle 3 103 203 (FX 10000) 2 true 2 0) = FX 10000 /\ recs s 3 = Some (mkOracle 3 103 203 (FX 10000) 2 true 2 0)).
+Proof. exact past_infraction_nonvacuous. Qed.
+Print Assumptions C13_past_infraction_nonvacuous.
 
 (* 4. penalties never exceed the stake and are charged once per offline period *)
 Theorem C13_slash_bounded : forall r f, 0 <= slash_amount r f <= Z.max 0 (o_amount r).
